@@ -122,6 +122,15 @@ def scenario(rng, rich):
     if e[0] in ("spset", "spdel", "update", "spassign", "spnest", "move"):
         e[1] = who if (who != "h3" or prov != "byid" or init) else "h1"
     ops.append(e)
+    if e[0] in ("move", "clone"):
+        # the handles left behind in the source project (copies made before the move) keep working there:
+        # re-create the job, change its state point through them
+        for h in ("h1", "h2", "h3", "h4"):
+            if h != e[1] and rng.random() < 0.5:
+                if rng.random() < 0.5:
+                    ops.append(["init", h])
+                ops.append(rng.choice([["spset", h, "d", rng.choice([0, 1, "x"])], ["spnest", h, "n", "q", 1],
+                                       ["update", h, {"zz": 1}, False], ["dset", h, "m", 2]]))
     # use the handles afterwards
     for _ in range(rng.randint(0, 3)):
         h = rng.choice(["h1", "h2", "h3", "h4", "hd", "hc"])
